@@ -15,6 +15,10 @@ class SPEC:
             "and non-decreasing totals, end > start, counters of adversarial magnitude (0, 1, 2^32 +- 1, 2^61 +- 1, near 2^64), interleaved "
             "with exports-with-reset, clock advances (inactive expiry restarts a flow) and a dump after every step; about 5 % of the records (and of the "
             "data sets) lack one of the non-pod correlate fields, as records of an exporter whose template has no such element. The declarative "
+            "Every second history creates the process from the same configuration with its lists written in another order (`cfg<n>`: the two per-node "
+            "end-time elements swapped, the three aligned statistics lists under one permutation, the non-stats list shuffled). A further 20 % of the "
+            "histories configure httpVals among the non-stats elements (`http`): every record carries an httpVals value - empty, a JSON object, or "
+            "text that is no JSON (a legal string) - which must not disturb the arithmetic; the stored value (Agg.fillHttp) is compared in the dumps. The declarative "
             "history-level specification Ipfix.C05.expected (sums / latest values / max / throughput formula as folds over the flow's history) "
             "is evaluated on every dumped and exported record of the implementation. A second stream violates the contract on purpose (equal "
             "end times, decreasing totals); it is compared with the model but reported as out-of-domain only. Crash-only sessions (implementation alone; the model has no such "
@@ -24,7 +28,9 @@ class SPEC:
             "operation. Non-trivial = >= 2 records on one key.")
     assumptions = ["the exporter contract of the property (per node: end times strictly increase, totals do not decrease, end > start) and "
                    "8 x (octet total growth) < 2^64 (the wrap branch is the theorem throughput_wraps)",
-                   "fixed Antrea configuration of statistics elements; httpVals left out of the configuration"]
+                   "Antrea's configuration of statistics elements (its lists in the usual and in permuted orders); httpVals configured in the `http` "
+                   "histories only, its values from the model's value language (empty, an object of plain decimal ids and alphanumeric texts without "
+                   "white space, or text that is no JSON object at all)"]
     trusted = ["the overlay's mechanical rewrite time.Now() -> verifNow() in pkg/intermediate"]
 
 
@@ -61,13 +67,32 @@ class Node:
         return self.end, [self.tot[0], deltas[0], self.tot[1], deltas[1], self.tot[2], deltas[2], self.tot[3], deltas[3]]
 
 
-def history(rng, tier, contract=True, msgs=False):
+HTTP_KEYS = [0, 1, 2, 3, 5, 10, 12, 20, 100, 999999999]
+HTTP_BROKEN = ['{"1":"a"', "garbage", '{"1":"a",}', '{"x":"a"}', '{"1":5}', "[1]", "{", '"a"', '{"2147483648":"a"}', '{"1":"a"}}', '{"1":"GET']
+
+
+def http_value(rng):
+    """what a record's httpVals element holds: nothing, an object {"<transaction id>":"<text>",...} (the model's value
+    language: no white space, plain decimal ids, texts of letters and digits), or text that is not such an object (cut
+    off by the exporter, ...) - a legal value of a string element"""
+    r = rng.random()
+    if r < 0.35:
+        return ""
+    if r < 0.8:
+        ids = rng.sample(HTTP_KEYS, rng.randint(1, 3))
+        return "{" + ",".join('"%d":"%s"' % (i, "".join(rng.choice("abzGET09") for _ in range(rng.randint(0, 6)))) for i in ids) + "}"
+    return rng.choice(HTTP_BROKEN)
+
+
+def history(rng, tier, contract=True, msgs=False, http=False):
     """msgs: most records arrive in data sets of 2..4 records (`agg msg`: exporter encoding -> collector decoding ->
-    aggregation) in which records of different five-tuples are mixed with records of the same one"""
+    aggregation) in which records of different five-tuples are mixed with records of the same one.
+    http: httpVals is one of the configured non-stats elements (`agg new ... http`) and every record carries one"""
     keys = rng.sample([1, 2, 3, 4, 5, 6], rng.randint(2, 6))
     kinds = {}
     nodes = {}
-    ops = ["agg new %d %d" % (A, I)]
+    ops = ["agg new %d %d" % (A, I) + (" http" if http else "")]
+    hv = (lambda: dict(http=http_value(rng))) if http else (lambda: {})
     n = rng.randint(1, 80)
     perm_p = rng.choice([0, 0, 0.3, 1.0])
     per_key = {}
@@ -81,17 +106,17 @@ def history(rng, tier, contract=True, msgs=False):
         per_key[k] = per_key.get(k, 0) + 1
         if kind == "intra":
             e, st = nodes[k]["S"].next(contract)
-            return AG.rec_op(k, 1, AG.corr("podA", "podB"), nodes[k]["start"], e, st, reason=rng.choice([1, 2, 3]), tcp=rng.choice(["ESTABLISHED", "TIME_WAIT", ""]))
+            return AG.rec_op(k, 1, AG.corr("podA", "podB"), nodes[k]["start"], e, st, reason=rng.choice([1, 2, 3]), tcp=rng.choice(["ESTABLISHED", "TIME_WAIT", ""]), **hv())
         if kind == "external":
             e, st = nodes[k]["S"].next(contract)
-            return AG.rec_op(k, 3, AG.corr("podA", ""), nodes[k]["start"], e, st)
+            return AG.rec_op(k, 3, AG.corr("podA", ""), nodes[k]["start"], e, st, **hv())
         if kind == "egress-drop":
             e, st = nodes[k]["S"].next(contract)
-            return AG.inter_src(k, nodes[k]["start"], e, st, egress=2)
+            return AG.inter_src(k, nodes[k]["start"], e, st, egress=2, **hv())
         side = rng.choice("SD")
         e, st = nodes[k][side].next(contract)
         f = AG.inter_src if side == "S" else AG.inter_dst
-        return f(k, nodes[k]["start"], e, st)
+        return f(k, nodes[k]["start"], e, st, **hv())
 
     for _ in range(n):
         r = rng.random()
@@ -127,7 +152,7 @@ def history(rng, tier, contract=True, msgs=False):
         else:
             ops += ["agg adv %d" % rng.choice([1, 10]), "agg dump"]
     nt = any(v >= 2 for v in per_key.values())
-    return Case(ops, ("contract" if contract else "violating") + ("-msg" if msgs else ""), nt, contract)
+    return Case(ops, ("contract" if contract else "violating") + ("-msg" if msgs else "") + ("-http" if http else ""), nt, contract)
 
 
 def run(ctx):
@@ -145,6 +170,12 @@ def run(ctx):
         cases.append(history(rng2, ctx.tier, True, msgs=True))
     for _ in range(n // 40):
         cases.append(history(rng2, ctx.tier, False, msgs=True))
+    # httpVals configured (own stream of random numbers): every record says what its httpVals element holds - nothing, a
+    # JSON object, or text which is no JSON; the arithmetic must not depend on it, and the stored value is the merge
+    rng4 = random.Random(ctx.seed * 1000003 + 507)
+    for j in range(n // 5):
+        cases.append(history(rng4, ctx.tier, j % 7 != 6, msgs=(j % 3 == 2), http=True))
+    AG.with_cfg(cases)
     # tokens the harness refuses because they do not fit the element's type (times: unsigned32, flow type and end
     # reason: unsigned8, counters: unsigned64, key: the engine's table): refused by the model's parser too
     ok = AG.intra(1, 100, 101, [1, 1, 1, 1, 1, 1, 1, 1])
